@@ -72,9 +72,9 @@ FLOORS = {
         "dispatch_generics_checked": 1200,
     },
     "thorough": {
-        "programs": 100000,
+        "programs": 90000,
         "distinct_nontrivial": 20000,
-        "recognition_bodies_checked": 60000,
+        "recognition_bodies_checked": 50000,
         "recognition_vectors_compared": 500000,
         "expansion_bodies_checked": 15000,
         "expansion_vectors_compared": 2000000,
